@@ -20,10 +20,12 @@ PathClasses == {"nil", "empty", "/a/b", "/a", "/l[k=1]/x", "/l[k=*]/x", "/l[k=1]
                 "double-slash", "elem-empty-name", "elem-nil", "key-empty-name", "key-empty-value", "key-bracket", "key-slash", "key-equals",
                 "plus", "question", "pipe", "caret-dollar", "braces", "long", "unicode", "m-partial-key"}
 ValueClasses == {"nil", "empty", "string", "int", "uint", "bool", "bytes", "float", "decimal", "json-valid", "json-invalid", "json-array",
-                 "jsonietf", "leaflist-str", "leaflist-mixed", "leaflist-nilelem", "leaflist-empty", "ascii", "any", "proto-bytes", "huge-int"}
+                 "jsonietf", "leaflist-str", "leaflist-mixed", "leaflist-nilelem", "leaflist-empty", "ascii", "any", "proto-bytes", "huge-int",
+                 "decimal-p64", "decimal-neg"}
 Targets == {"", "t1", "*", "tX"}
 Prefixes == {"nil", "empty", "t1", "t1-elems", "elems-only", "star", "paren"}
-Exts == {"none", "garbage-111", "garbage-100", "garbage-110", "nil-ext", "sync", "overrides-unknown", "overrides-t1", "master-arb", "nil-registered"}
+Exts == {"none", "garbage-111", "garbage-100", "garbage-110", "nil-ext", "sync", "overrides-unknown", "overrides-t1", "master-arb", "nil-registered",
+         "overrides-empty", "overrides-unknown-fields", "overrides-nil-value"}
 Encodings == {"PROTO", "JSON", "JSON_IETF", "ASCII", "BYTES", "99"}
 GetTypes == {"ALL", "CONFIG", "STATE", "OPERATIONAL"}
 
